@@ -1382,6 +1382,11 @@ func (g *gen) stDefer() *Node {
 			g.f.noPanic = oldNP
 			if ok {
 				g.noteCall(f)
+				if f.soft && len(g.f.sig.results) > 0 {
+					// the results of this function are on the stack when the deferred call runs: a panic leaving
+					// this frame from there leaves them behind (finding recover-stack-residue in a recovering caller)
+					g.f.sig.dirty = true
+				}
 				if !f.safe {
 					g.f.sig.safe = false
 				}
@@ -1394,6 +1399,11 @@ func (g *gen) stDefer() *Node {
 	outer := g.f
 	lf := &fctx{sig: outer.sig, budget: outer.budget, cost: outer.cost, mult: outer.mult, inLambda: true,
 		hasDefer: false, protected: outer.protected, noPanic: outer.noPanic, noSoft: outer.noSoft || outer.noSoftExpr, nameCtr: outer.nameCtr + 100, labelCtr: outer.labelCtr + 100}
+	if len(outer.sig.results) > 0 {
+		// the literal runs when the results of the function are already on the evaluation stack: a panic that
+		// leaves the frame from here makes the function "dirty" (finding recover-stack-residue in a recovering caller)
+		lf.stackItems = 1
+	}
 	g.f = lf
 	g.push()
 	var body []*Node
